@@ -159,13 +159,23 @@ def mesh_req(S, cfg):
     S.le('req.le_limit[b]', req, m2)
     if u is not None:
         S.le('req.le_user', req, u)
-    if u is not None:
-        lim = np.floor(min(m1, m2) * 1e6) / 1e6 if S.mode != 'sym' else None
-        if S.mode == 'sym':
-            S.holds('req.user_honoured_or_ignored', (req == u) | (u > req))
-        else:
-            S.holds('req.user_honoured_or_ignored', req == u or u > req)
+    # exactly: L = the smallest limit rounded down to the micrometre; a request <= L is honoured as it stands (also one
+    # above 1 cm: the accuracy cap applies to the unrequested step only); a larger request is ignored, i.e. the step is
+    # what it would be without a request: min(L, 1 cm)
+    mn = m1 if m1 <= m2 else m2
+    if S.mode == 'sym':
+        from pvc.npshim import NpShim
+        L = NpShim().floor(mn * 1e6) / 1e6
     else:
+        L = np.floor(mn * 1e6) / 1e6
+    unrequested = L if L <= 0.01 else 0.01
+    if u is not None:
+        if u <= L:
+            S.eq('req.smaller_request_honoured', req, u)
+        else:
+            S.eq('req.larger_request_ignored', req, unrequested)
+    else:
+        S.eq('req.without_request', req, unrequested)
         S.le('req.cap_1cm', req, 0.01)
     # what _setup_zpts needs from its call site: at least one grid unit
     S.le('req.positive_at_call_site', 1 / GRID if S.mode != 'sym' else Sym(core.C(1)) / GRID, req)
